@@ -141,7 +141,17 @@ def fixed_specs():
                                                    f("m1"), f("m2")]),
              user("testkern_qr_type", [ref("field", "obj", "f"), f("f2"), f("obj_f"), ref("real", ("sc", "2")), f("m2"),
                                        ref("int", "istp"), ref("qr", "obj", "qr")])]
-    return [("witness-extent-indexed", file([w_ext])), ("witness-direction-indexed", file([w_dir])),
+    def qrk(q):
+        return user("testkern_qr_type", [f("f1"), f("f2"), f("m1"), ref("real", "a"), f("m2"), ref("int", "istp"), q])
+
+    def stk(e, d):
+        return user("testkern_stencil_xory1d_type", [f("f1"), f("f2"), e, d, f("m1"), f("m2")])
+    qr_pair = [qrk(ref("qr", ("qrs", "1"))), qrk(ref("qr", ("qrs", "2"))), qrk(ref("qr", ("qrs", "1"))), qrk(ref("qr", "qr"))]
+    st_pair = [stk(ref("extent", ("exts", "1")), ref("direction", ("dirs", "1"))),
+               stk(ref("extent", ("exts", "2")), ref("direction", ("dirs", "2"))),
+               stk(ref("extent", ("exts", "1")), ref("direction", ("dirs", "2")))]
+    return [("qr-indexed-pair", file(qr_pair)), ("stencil-indexed-pairs", file(st_pair)),
+            ("witness-extent-indexed", file([w_ext])), ("witness-direction-indexed", file([w_dir])),
             ("witness-extent-direction-deref", file([w_deref])), ("witness-extent-also-scalar", file(w_dup)),
             ("clean-stencil-qr", file(clean))]
 
@@ -153,7 +163,9 @@ def run(ctx):
         "built-ins and 6 user kernels (scalars, fields, cross/xory1d/x1d stencils, xyoz quadrature); argument texts "
         "from pools of plain, indexed, derived-type-component and literal references, re-used across kernels with "
         "random case/blank spelling, incl. names that collide with generated names (obj_f vs obj%f, fa_1 vs fa(2), "
-        "cell, df, nlayers); DM on/off.  non-trivial = generation accepted and >=1 non-literal argument traced; "
+        "cell, df, nlayers); 40% of the invokes are themed (several quadrature or stencil kernels whose qr / extent / "
+        "direction arguments differ only in their index); DM on/off; 7 fixed witness files replayed first (the Coq "
+        "witnesses, the shapes of upstream 19.22/19.23, indexed qr and stencil pairs).  non-trivial = generation accepted and >=1 non-literal argument traced; "
         "distinct = canonical (invoke structure, argument texts)")
     ctx.cov["trusted_base"] = core.BASE_TRUST + [
         "coq/C24/Model.v is hand-written; tied to Invoke.__init__/LFRicInvoke.__init__/DynKernelArguments/alg_gen by this correspondence run",
@@ -163,14 +175,15 @@ def run(ctx):
         "assumed by the model (texts are compared blank-free, lower-case), exercised by the spelled generator",
         "thorough tier: gfortran 12 + bundled LFRic infrastructure as the execution oracle (testing only)"]
     ctx.assumptions = [
-        "fresh-name search: next_available_name tries root, root_1, root_2, ... (model Fresh.fresh; proved to return an unused name)",
-        "kernel arguments of one call have pairwise distinct texts (PSyclone refuses the call otherwise; hypothesis kernels_nodup of kernel_arg_bound_to_its_actual)"]
+        "no Section hypotheses: the fresh-name search is modelled concretely (root, root_1, ...) and proved to return an unused name",
+        "texts are compared blank-free and lower-case: fparser2 is assumed to print two spellings of one reference identically",
+        "pre (names present before the first argument is named) = routine name + LFRic reserved names; the theorems hold for every pre"]
     ok, rep = ctx.prove()
     ctx.log("proof ok=%s discharged=%d/%d" % (ok, ctx.cov["discharged"], ctx.cov["obligations"]))
 
     rng = ctx.rng("gen")
     work = Work()
-    budget = ctx.pick(40, 600)            # seconds for the generated part
+    budget = ctx.pick(35, 420)            # seconds for the generated part
     nfiles = ctx.pick(60, 900)
     t0 = time.time()
     cases, coq_cases, failures, refused = [], [], [], 0
@@ -231,6 +244,15 @@ def run(ctx):
         failing = ctx.coq_eval_failing(CE.HEADER, "case", "agrees", coq_cases, shard=ctx.pick(40, 120))
     ctx.cov["disagreements_checked"] = len(failing)
     ctx.log("model/implementation disagreements: %d of %d" % (len(failing), len(coq_cases)))
+
+    # ---- thorough tier: execute built-in-only invokes on the bundled infrastructure (supporting evidence)
+    run_problems = []
+    if ctx.thorough:
+        import gfrun
+        run_problems = gfrun.run(ctx, nprog=4)
+        ctx.log("gfortran run: %s, problems=%d" % (ctx.notes.get("gfortran_run"), len(run_problems)))
+    for pr in run_problems[:3]:
+        ctx.violation(dict(pr, property="C24"), no_input=not pr.get("concrete"))
 
     # ---- verdict
     seen = set()
